@@ -35,6 +35,8 @@ func (c07) Classes() []sim.Class {
 		cs = append(cs,
 			sim.Class{Name: "yielding", Engine: e, Quick: 600, Thorough: 30000, DeathIsViolation: true, RunTimeoutSec: 30, Batch: 40},
 			sim.Class{Name: "purespin", Engine: e, Quick: 300, Thorough: 15000, DeathIsViolation: true, RunTimeoutSec: 30, Batch: 20},
+			// a guest parked in memory.atomic.wait (threads feature): the recorded known finding
+			sim.Class{Name: "parked", Engine: e, Quick: 2, Thorough: 12, RunTimeoutSec: 60, Batch: 1},
 			sim.Class{Name: "synctest-deadline", Engine: e, Quick: 120, Thorough: 6000, DeathIsViolation: true, RunTimeoutSec: 60, Batch: 10, Toolchain: "go1.26.8"},
 		)
 	}
@@ -323,12 +325,16 @@ const (
 	causeRuntimeClose
 	causeCancelCause
 	causeTimeoutCause
+	// Runtime.Close has started and is blocked inside the close notification of ANOTHER module (holding
+	// the store's lock) when the call's context is cancelled
+	causeCancelUnderBlockedRuntimeClose
 	numCauses
 )
 
-var causeNames = []string{"cancel", "deadline", "close-from-goroutine", "runtime-close", "cancel-with-custom-cause", "timeout-with-custom-cause"}
+var causeNames = []string{"cancel", "deadline", "close-from-goroutine", "runtime-close", "cancel-with-custom-cause", "timeout-with-custom-cause", "cancel-while-runtime-close-is-blocked-in-another-modules-notification"}
 
 type scenario struct {
+	Swallow bool // host-entered loop: the host function swallows the inner call's error and returns
 	Derived bool   `json:"host_reenters_with_derived_context,omitempty"`
 	Shape   string `json:"shape"`
 	Yield   bool   `json:"yield"`
@@ -339,7 +345,12 @@ type scenario struct {
 	Code    uint32 `json:"close_code"`
 }
 
-func (c07) Run(t *tape.Tape, cfg sim.Config) (res sim.Result) { return runScenario(t, cfg, false) }
+func (c07) Run(t *tape.Tape, cfg sim.Config) (res sim.Result) {
+	if cfg.Class == "parked" {
+		return runParked(t, cfg)
+	}
+	return runScenario(t, cfg, false)
+}
 
 // RunListened runs a C07 scenario of class yielding with a bracket-checking FunctionListenerFactory on every
 // function (guest, host, both modules): used by C20's class termination -- frames unwound because the
@@ -407,8 +418,9 @@ func runScenario(t *tape.Tape, cfg sim.Config, listen bool) (res sim.Result) {
 	code := uint32(1 + t.Choose(200))
 	// host-entered loop: the host callback may re-enter the guest with a context DERIVED from the call's
 	// context (its own cancel function); the cause then ends the derived context only
+	swallow := shape == shHostEntered && t.Chance(1, 2)
 	derived := shape == shHostEntered && (cause == causeCancel || cause == causeCancelCause) && !already && t.Chance(1, 2)
-	sc := scenario{Shape: shapeNames[shape], Yield: yield, Pad: pad, Cause: causeNames[cause], K: k, Code: code, Derived: derived}
+	sc := scenario{Shape: shapeNames[shape], Yield: yield, Pad: pad, Cause: causeNames[cause], K: k, Code: code, Derived: derived, Swallow: swallow}
 	switch {
 	case already:
 		sc.Moment = "already-done-at-call"
@@ -464,6 +476,9 @@ func runScenario(t *tape.Tape, cfg sim.Config, listen bool) (res sim.Result) {
 	var callCtx context.Context
 	var cancel context.CancelFunc
 	var cancelCause context.CancelCauseFunc
+	var hostFailureAsync atomic.Value
+	blockerNotified, callReturned := make(chan struct{}), make(chan struct{})
+	var blockerTimedOut atomic.Bool
 	fire := func() {
 		switch cause {
 		case causeCancel:
@@ -476,6 +491,14 @@ func runScenario(t *tape.Tape, cfg sim.Config, listen bool) (res sim.Result) {
 			go mod.CloseWithExitCode(bg, code)
 		case causeRuntimeClose:
 			go rt.Close(bg)
+		case causeCancelUnderBlockedRuntimeClose:
+			go rt.Close(bg)
+			select {
+			case <-blockerNotified: // Runtime.Close now sits in the blocker's notification
+			case <-time.After(5 * time.Second):
+				hostFailureAsync.Store("Runtime.Close did not reach the blocker module's close notification within 5 s")
+			}
+			cancel()
 		}
 	}
 	waitClosed := func() bool {
@@ -488,6 +511,8 @@ func runScenario(t *tape.Tape, cfg sim.Config, listen bool) (res sim.Result) {
 		return false
 	}
 	var hostFailure string
+	var innerCode uint32
+	var innerSeen, innerKnownNil bool
 	hostFn := func(ctx context.Context, m api.Module, stack []uint64) {
 		tag := uint32(stack[0])
 		if tag == 9 {
@@ -506,6 +531,21 @@ func runScenario(t *tape.Tape, cfg sim.Config, listen bool) (res sim.Result) {
 			}
 			_, err := m.ExportedFunction("spin").Call(ctx)
 			if err != nil {
+				if swallow {
+					// the host function handles the inner call's failure itself and returns normally: the
+					// OUTER call is then a second observer of the same close and must report the same cause
+					var ie *sys.ExitError
+					if !errors.As(err, &ie) {
+						if guestWASI && (cause == causeClose || cause == causeRuntimeClose) && strings.Contains(err.Error(), "nil pointer dereference") && strings.Contains(err.Error(), "wasi_snapshot_preview1.sched_yield") {
+							innerKnownNil = true // the recorded known finding, met by the re-entrant call
+						} else {
+							hostFailure = fmt.Sprintf("the re-entrant call returned %v, expected an exit error", firstLine(err))
+						}
+					} else {
+						innerCode, innerSeen = ie.ExitCode(), true
+					}
+					return
+				}
 				panic(err)
 			}
 			return
@@ -548,6 +588,20 @@ func runScenario(t *tape.Tape, cfg sim.Config, listen bool) (res sim.Result) {
 	if err != nil {
 		panic(fmt.Sprintf("harness: guest does not instantiate: %v", err))
 	}
+	if cause == causeCancelUnderBlockedRuntimeClose {
+		// instantiated last, so closed first by Runtime.Close
+		nctx := experimental.WithCloseNotifier(bg, experimental.CloseNotifyFunc(func(context.Context, uint32) {
+			close(blockerNotified)
+			select {
+			case <-callReturned:
+			case <-time.After(3 * time.Second):
+				blockerTimedOut.Store(true)
+			}
+		}))
+		if _, err := rt.InstantiateWithConfig(nctx, (&wasmb.Module{}).Encode(), wazero.NewModuleConfig().WithName("blocker")); err != nil {
+			panic(err)
+		}
+	}
 	switch cause {
 	case causeDeadline, causeTimeoutCause:
 		d := time.Duration(1+t.Choose(4)) * time.Millisecond
@@ -585,7 +639,18 @@ func runScenario(t *tape.Tape, cfg sim.Config, listen bool) (res sim.Result) {
 		}()
 	}
 	_, callErr := mod.ExportedFunction("run").Call(callCtx)
+	close(callReturned)
+	if blockerTimedOut.Load() {
+		res.Fail("late-stop", "%+v: the call did not return within 3 s of its cancellation while Runtime.Close was inside another module's close notification (it returned %v only after that notification gave up waiting)", sc, firstLine(callErr))
+		return
+	}
+	if v := hostFailureAsync.Load(); v != nil && hostFailure == "" {
+		hostFailure = v.(string)
+	}
 	// reaching this point means the call returned (the supervisor's watchdog catches the other case)
+	if innerKnownNil {
+		res.Known = append(res.Known, "wasi-call-under-concurrent-close-nil-dereference")
+	}
 	res.Steps = calls
 	res.Nontrivial = !already
 	res.Stat("fault."+causeNames[cause], 1)
@@ -613,7 +678,7 @@ func runScenario(t *tape.Tape, cfg sim.Config, listen bool) (res sim.Result) {
 	}
 	want := code
 	switch cause {
-	case causeCancel, causeCancelCause:
+	case causeCancel, causeCancelCause, causeCancelUnderBlockedRuntimeClose:
 		want = sys.ExitCodeContextCanceled
 	case causeDeadline, causeTimeoutCause:
 		want = sys.ExitCodeDeadlineExceeded
@@ -622,6 +687,10 @@ func runScenario(t *tape.Tape, cfg sim.Config, listen bool) (res sim.Result) {
 	}
 	if ee.ExitCode() != want {
 		res.Fail("wrong-exit-code", "%+v: exit code %#x, expected %#x", sc, ee.ExitCode(), want)
+		return
+	}
+	if swallow && innerSeen && innerCode != want {
+		res.Fail("wrong-exit-code", "%+v: the re-entrant call (whose error the host function swallowed) returned exit code %#x, expected %#x", sc, innerCode, want)
 		return
 	}
 	if !mod.IsClosed() {
